@@ -4,7 +4,7 @@ Monitor: windows with any number/order of nested records of each relevant kind, 
 records, are fed to the real TracesParser; the fields of the emitted MachVmfault / DyldLaunchExecutable /
 PerfEvent objects are compared with a reference computed from the window itself.
 """
-from vlib import core, ev, histories as H
+from vlib import core, ev, histories as H, stream
 
 LEVEL = 'exploration'
 RULE = ('windows = page faults (END result zero/non-zero x all 11 fault types x 0..3 nested real-fault records of the 4 '
@@ -119,12 +119,14 @@ def faults(res, ctx, rng):
                     res.violation('c20-fault-text', f'{label}: {text!r}', case)
                     continue
                 res.count('faults_compared')
+                if len(STREAM_CASES) < 1500:
+                    STREAM_CASES.append((seq, [str(x) for x in traces], label))
                 if recs and recs[0][0] == 'purgeable':
                     res.count('faults_first_record_undecoded')
 
 
 def launches(res, ctx, rng):
-    for i in range(ctx.pick(150, 3000)):
+    for i in range(ctx.pick(200, 40000)):
         n = rng.randrange(0, 9)
         pool = [rng.getrandbits(40) for _ in range(max(1, n // 2))]
         recs = []
@@ -166,6 +168,8 @@ def launches(res, ctx, rng):
             res.violation('c20-launch-mh', f'main executable {hex(t.main_executable_mh)} vs START word 1 {hex(mh)}', case)
             continue
         res.count('launches_compared')
+        if i % 3 == 0:
+            STREAM_CASES.append((seq, [str(x) for x in traces], f'launch window with {n} image records'))
         if len(set(addrs)) < len(addrs):
             res.count('launches_with_address_ties')
 
@@ -174,7 +178,7 @@ TH_INFO, USTACK = 0x1, 0x8
 
 
 def samplers(res, ctx, rng):
-    for i in range(ctx.pick(400, 6000)):
+    for i in range(ctx.pick(500, 80000)):
         flags = rng.choice((0, TH_INFO, USTACK, TH_INFO | USTACK))
         other = rng.getrandbits(14) & ~(TH_INFO | USTACK)
         what = flags | (other if rng.random() < 0.6 else 0)
@@ -228,7 +232,12 @@ def samplers(res, ctx, rng):
             res.violation('c20-sampler-actionid', f'{label}: {t.actionid}', case)
             continue
         res.count('samplers_compared')
+        if i % 5 == 0:
+            STREAM_CASES.append((seq, [str(x) for x in traces], label))
         res.count(f'sampler_flags_{flags}_thd{int(has_thd)}_hdr{int(has_hdr)}')
+
+
+STREAM_CASES = []
 
 
 def run(ctx):
@@ -237,6 +246,7 @@ def run(ctx):
     faults(res, ctx, rng)
     launches(res, ctx, rng)
     samplers(res, ctx, rng)
+    stream.run_stream(res, 'c20', STREAM_CASES, rng, 'composite windows')
     if ctx.shard == 0:
         seq = H.page_fault(0x1000, 0, 0, 2, [H.real_fault('purgeable', 1, 3, 2, 44), H.real_fault('internal', 2, 1, 4, 45)])
         res.sample({'window': [f'{c}:{q}' for c, q, _ in seq], 'rendering': [str(t) for t in feed(seq)[1]][-1]})
@@ -249,6 +259,7 @@ def run(ctx):
     res.require('launches_compared', 20)
     res.require('launches_with_address_ties', 1)
     res.require('samplers_compared', 50)
+    res.require('stream_windows_one_thread', 20)
     return res
 
 
